@@ -50,6 +50,7 @@ type Case struct {
 	Family  string `json:"family"`            // format family of the generator
 	Mut     string `json:"mut"`               // human-readable description of the corruption
 	Valid   bool   `json:"valid,omitempty"`   // unmodified fixture / signed fixture: must be ok or error, calibrates the memory bound
+	Always  bool   `json:"always,omitempty"`  // structured case that every tier executes (never sampled away)
 }
 
 type Result struct {
